@@ -9,6 +9,7 @@ type Query {
   search(text: String!): [SearchResult]
   node(id: ID!): Node
   now: Date
+  since(at: Date, range: [Date!]): Int
   matrix: [[Int!]]
 }
 type Mutation {
@@ -53,6 +54,7 @@ input UserFilter {
   ids: [ID!]
   nested: UserFilter
   min: Int! = 0
+  after: Date
 }
 scalar Date @specifiedBy(url: "https://example.com/date")
 directive @tag(name: String!) repeatable on OBJECT | FIELD_DEFINITION | FIELD | QUERY | FRAGMENT_DEFINITION | FRAGMENT_SPREAD | INLINE_FRAGMENT | VARIABLE_DEFINITION | MUTATION | SUBSCRIPTION
@@ -94,6 +96,8 @@ query Me($withAge: Boolean! = true, $first: Int, $f: UserFilter = {kind: ADMIN, 
   node(id: "1") { id ... on Named { name } ... @tag(name: "i") { __typename } }
   matrix
   now
+  since(at: "2024-01-01", range: ["2024-01-02"])
+  recent: users(filter: {min: 0, after: "2024-02-01"}) { id }
 }
 mutation Rename($id: ID!, $name: String! @tag(name: "v")) {
   rename(id: $id, name: $name) { id name }
